@@ -11,6 +11,6 @@ fi
 mkdir -p $V/.build/gen
 $T -repo /repo -out $V/.build/gen 1>&2
 # only touch the .v files when their content changed (keeps make incremental)
-for f in handlers perms nondet genesis; do
+for f in handlers perms nondet genesis kernels; do
   if ! cmp -s $V/.build/gen/$f.v $V/coq/Gen/$f.v; then cp $V/.build/gen/$f.v $V/coq/Gen/$f.v; fi
 done
